@@ -26,12 +26,12 @@ type Each struct {
 	Else []Stmt
 }
 type For struct {
-	InitE Expr   // an init clause that is not an assignment (evaluated, value dropped); nil otherwise
-	Init *Assign // may be nil
-	Cond Expr    // may be nil
-	Post Stmt    // Assign, Print (expression whose value becomes the init variable) or nil
-	Body []Stmt
-	Else []Stmt
+	InitE Expr    // an init clause that is not an assignment (evaluated, value dropped); nil otherwise
+	Init  *Assign // may be nil
+	Cond  Expr    // may be nil
+	Post  Stmt    // Assign, Print (expression whose value becomes the init variable) or nil
+	Body  []Stmt
+	Else  []Stmt
 }
 type Break struct{}
 type Continue struct{}
@@ -41,10 +41,11 @@ type ContinueIf struct{ E Expr }
 // Component use: Args in source order; Slots: named slots and the default
 // slot (Name "")
 type Component struct {
-	Name  string // as written, e.g. "~card" or "components/card"
-	Args  *ObjLit
-	Slots []SlotBody
-	Gap   string // whitespace written before every @slot and before the closing @end
+	Name     string // as written, e.g. "~card" or "components/card"
+	Args     *ObjLit
+	Slots    []SlotBody
+	Gap      string // whitespace (and comments) written between the slots and before the closing @end
+	GapFirst string // whitespace written before the first @slot
 }
 type SlotBody struct {
 	Name string
